@@ -1,4 +1,4 @@
-(* LoadBalancedManager (server/upstream/manager.go:71-181) composed with the parts of cluster.State it
+(* LoadBalancedManager (server/upstream/manager.go:71-173) composed with the parts of cluster.State it
    drives (server/cluster/state.go: AddLocalEndpoint, RemoveLocalEndpoint, LocalEndpointListeners,
    LookupEndpoint, the remote-node mutators), the syncer's subscriber
    (server/gossip/syncer.go: Sync, onLocalEndpointUpdate) and the local gossip state
@@ -29,30 +29,30 @@ Definition set_remote (s : mstate) (r : amap rnode) : mstate :=
 Definition set_gossip (s : mstate) (g : node_state) : mstate :=
   {| m_local := m_local s; m_lbs := m_lbs s; m_counts := m_counts s; m_remote := m_remote s; m_gossip := g |}.
 
-(* key := "endpoint:" + endpointID   syncer.go:61, 406 *)
+(* key := "endpoint:" + endpointID   syncer.go:61, 411 *)
 Definition ep_key (e : string) : string := "endpoint:" ++ e.
 
 (* cluster.NewState + NewLoadBalancedManager + newSyncer(...).Sync(gossiper) on a node that has no
-   endpoints yet: Sync upserts proxy_addr then admin_addr   state.go:30-47, manager.go:85-92, syncer.go:49-64 *)
+   endpoints yet: Sync upserts proxy_addr then admin_addr   state.go:30-47, manager.go:83-90, syncer.go:49-64 *)
 Definition minit (id gossip_addr proxy_addr admin_addr : string) : mstate :=
   {| m_local := id; m_lbs := []; m_counts := []; m_remote := [];
      m_gossip := upsert_local "admin_addr" admin_addr (upsert_local "proxy_addr" proxy_addr (new_node id gossip_addr)) |}.
 
-(* func (s *State) LocalEndpointListeners(endpointID) int   state.go:193-206 *)
+(* func (s *State) LocalEndpointListeners(endpointID) int   state.go:188-200 *)
 Definition local_listeners (e : string) (s : mstate) : N :=
   match lookup e (m_counts s) with Some c => c | None => 0%N end.
 
-(* func (s *syncer) onLocalEndpointUpdate(endpointID)   syncer.go:405-413 *)
+(* func (s *syncer) onLocalEndpointUpdate(endpointID)   syncer.go:410-418 *)
 Definition on_local_endpoint_update (e : string) (s : mstate) : mstate :=
   let c := local_listeners e s in
   set_gossip s (if (0 <? c)%N then upsert_local (ep_key e) (itoa (Z.of_N c)) (m_gossip s)
                 else delete_local (ep_key e) (m_gossip s)).
 
-(* func (s *State) AddLocalEndpoint(endpointID)   state.go:128-151 (then every subscriber) *)
+(* func (s *State) AddLocalEndpoint(endpointID)   state.go:128-150 (then every subscriber) *)
 Definition add_local_endpoint (e : string) (s : mstate) : mstate :=
   on_local_endpoint_update e (set_counts s (insert e (local_listeners e s + 1)%N (m_counts s))).
 
-(* func (s *State) RemoveLocalEndpoint(endpointID)   state.go:154-191: unknown / zero => warn and return
+(* func (s *State) RemoveLocalEndpoint(endpointID)   state.go:153-186: unknown / zero => warn and return
    WITHOUT calling the subscribers *)
 Definition remove_local_endpoint (e : string) (s : mstate) : mstate :=
   match lookup e (m_counts s) with
@@ -63,12 +63,12 @@ Definition remove_local_endpoint (e : string) (s : mstate) : mstate :=
         (set_counts s (if (1 <? c)%N then insert e (c - 1)%N (m_counts s) else remove e (m_counts s)))
   end.
 
-(* func (m *LoadBalancedManager) AddConn(u)   manager.go:118-135 *)
+(* func (m *LoadBalancedManager) AddConn(u)   manager.go:115-132 *)
 Definition add_conn (u : N) (e : string) (s : mstate) : mstate :=
   let b := match lookup e (m_lbs s) with Some b => b | None => lb_empty end in
   add_local_endpoint e (set_lbs s (insert e (lb_add u b) (m_lbs s))).
 
-(* func (m *LoadBalancedManager) RemoveConn(u)   manager.go:137-160 (with the D1 fix, lines 145, 151-156) *)
+(* func (m *LoadBalancedManager) RemoveConn(u)   manager.go:134-158 (with the D1 fix: lines 142 and 148-153) *)
 Definition remove_conn (u : N) (e : string) (s : mstate) : mstate :=
   match lookup e (m_lbs s) with
   | None => s
@@ -102,7 +102,7 @@ Definition candidates (e : string) (s : mstate) : list string :=
    candidate set, or (nil, false) *)
 Inductive sel := SLocal (u : N) | SNil | SRemote (cands : list string) | SNone.
 
-(* func (m *LoadBalancedManager) Select(endpointID, allowRemote)   manager.go:94-116 *)
+(* func (m *LoadBalancedManager) Select(endpointID, allowRemote)   manager.go:92-113 *)
 Definition select (e : string) (allow : bool) (s : mstate) : sel * mstate :=
   match lookup e (m_lbs s) with
   | Some b =>
@@ -117,33 +117,33 @@ Definition select (e : string) (allow : bool) (s : mstate) : sel * mstate :=
       else (SNone, s)
   end.
 
-(* func (m *LoadBalancedManager) Endpoints() map[string]int   manager.go:162-171 *)
+(* func (m *LoadBalancedManager) Endpoints() map[string]int   manager.go:160-169 *)
 Definition endpoints (s : mstate) : list (string * nat) :=
   map (fun kv => (fst kv, List.length (ups (snd kv)))) (m_lbs s).
 
 (* remote-node mutators of cluster.State, driven by the syncer's watcher callbacks *)
-(* AddNode   state.go:227-243 *)
+(* AddNode   state.go:223-240 *)
 Definition add_node (id status : string) (eps : amap Z) (s : mstate) : mstate :=
   if String.eqb id (m_local s) then s
   else set_remote s (insert id {| r_status := status; r_eps := eps |} (m_remote s)).
-(* RemoveNode   state.go:246-265 *)
+(* RemoveNode   state.go:243-262 *)
 Definition remove_node (id : string) (s : mstate) : mstate :=
   if String.eqb id (m_local s) then s else set_remote s (remove id (m_remote s)).
-(* UpdateRemoteStatus   state.go:268-287 *)
+(* UpdateRemoteStatus   state.go:265-284 *)
 Definition update_remote_status (id status : string) (s : mstate) : mstate :=
   if String.eqb id (m_local s) then s else
   match lookup id (m_remote s) with
   | None => s
   | Some n => set_remote s (insert id {| r_status := status; r_eps := r_eps n |} (m_remote s))
   end.
-(* UpdateRemoteEndpoint / updateRemoteEndpointLocked   state.go:291-314, 368-392 *)
+(* UpdateRemoteEndpoint / updateRemoteEndpointLocked   state.go:288-310, 359-382 *)
 Definition update_remote_endpoint (id e : string) (n : Z) (s : mstate) : mstate :=
   if String.eqb id (m_local s) then s else
   match lookup id (m_remote s) with
   | None => s
   | Some nd => set_remote s (insert id {| r_status := r_status nd; r_eps := insert e n (r_eps nd) |} (m_remote s))
   end.
-(* RemoveRemoteEndpoint / removeRemoteEndpointLocked   state.go:318-339, 394-411 *)
+(* RemoveRemoteEndpoint / removeRemoteEndpointLocked   state.go:314-332, 384-401 *)
 Definition remove_remote_endpoint (id e : string) (s : mstate) : mstate :=
   if String.eqb id (m_local s) then s else
   match lookup id (m_remote s) with
@@ -194,7 +194,7 @@ Definition gossip_live (k : string) (g : node_state) : option string :=
   | Some en => if e_del en then None else Some (e_val en)
   | None => None
   end.
-(* what the rest of the cluster is told: strconv.Atoi of the live entry "endpoint:<e>" (syncer.go:283-297
+(* what the rest of the cluster is told: strconv.Atoi of the live entry "endpoint:<e>" (syncer.go:284-297
    on the receiving side), absent entry = not advertised = 0. None = an unparsable value. *)
 Definition advertised_count (e : string) (s : mstate) : option Z :=
   match gossip_live (ep_key e) (m_gossip s) with
